@@ -1251,4 +1251,109 @@ example : ∃ o, impTcp exSig exBase 3 1500 none exChoices = .ok o ∧ tcpMatchP
   imp_exact_partial exSig exBase 3 35 1500 none exChoices exBase_admissible exSig_supported exChoices_ok
     (by decide) (by decide) (by decide)
 
+/-! ### the hypotheses as Booleans: what the driver evaluates on every run implies what the theorem assumes -/
+
+theorem admissibleB_sound (b : Base) (h : admissibleB b = true) : Admissible b := by
+  unfold admissibleB at h
+  simp only [Bool.and_eq_true, Bool.or_eq_true, decide_eq_true_eq, Bool.not_eq_true', beq_iff_eq, bne_iff_ne] at h
+  obtain ⟨⟨⟨⟨⟨⟨⟨⟨⟨⟨h1, h2⟩, h3⟩, h4⟩, h5⟩, h6⟩, h7⟩, h8⟩, h9⟩, h10⟩, h11⟩ := h
+  refine ⟨h1, h2, h3, h4, ?_, h6, h7, h8, h9, h10, h11⟩
+  constructor
+  · intro ha
+    rw [ha] at h5
+    simpa using h5.symm
+  · intro hne
+    have : (b.ack != 0) = true := by simpa using hne
+    rw [this] at h5
+    exact h5
+
+theorem layoutLenB_eq (l : List Nat) : layoutLenB l = layoutLen l := rfl
+
+theorem supportedB_sound (s : Sig) (b : Base) (h : supportedB s b = true) : Supported s b := by
+  unfold supportedB at h
+  simp only [Bool.and_eq_true] at h
+  obtain ⟨⟨⟨⟨⟨⟨⟨⟨⟨⟨⟨⟨⟨⟨⟨⟨⟨⟨⟨⟨⟨⟨⟨⟨⟨⟨⟨a1, a2⟩, a3⟩, a4⟩, a5⟩, a6⟩, a7⟩, a8⟩, a9⟩, a10⟩, a11⟩, a12⟩, a13⟩, a14⟩, a15⟩, a16⟩, a17⟩, a18⟩, a19⟩, a20⟩, a21⟩, a22⟩, a23⟩, a24⟩, a25⟩, a26⟩, a27⟩, a28⟩ := h
+  have wt_beq : ∀ x y : WinType, (x != y) = true ↔ x ≠ y := fun x y => by simp
+  refine { version := ?_, layoutPlain := ?_, aligned := ?_, eolPad0 := ?_, olenV := ?_, ttlOk := ?_, mssFits := ?_,
+           scaleFits := ?_, winOk := ?_, noBad := ?_, noEolNz := ?_, idCoherent := ?_, ackCoherent := ?_, urgCoherent := ?_,
+           famCoherent := ?_, exwsCoherent := ?_, mssCoherent := ?_, scaleCoherent := ?_, ts1Coherent := ?_, ts2Coherent := ?_ }
+  · cases hv : s.ipVer with
+    | none => exact Or.inl rfl
+    | some v => right; simp [hv] at a1; rw [a1]
+  · intro k hk
+    have := List.all_eq_true.mp a2 k hk
+    simp only [Bool.or_eq_true, beq_iff_eq] at this
+    rcases this with (((h | h) | h) | h) | h
+    · exact Or.inl h
+    · exact Or.inr (Or.inl h)
+    · exact Or.inr (Or.inr (Or.inl h))
+    · exact Or.inr (Or.inr (Or.inr (Or.inl h)))
+    · exact Or.inr (Or.inr (Or.inr (Or.inr h)))
+  · rw [← layoutLenB_eq]; simpa using a3
+  · simpa using a4
+  · refine ⟨fun h6 => ?_, by simpa using a6⟩
+    simp only [Bool.or_eq_true, bne_iff_ne, ne_eq, beq_iff_eq] at a5
+    rcases a5 with h | h
+    · exact absurd h6 h
+    · exact h
+  · exact ⟨by simpa using a7, by simpa using a8⟩
+  · intro m hm; rw [hm] at a9; simpa using a9
+  · intro w hw; rw [hw] at a10; simpa using a10
+  · refine ⟨?_, ?_, ?_, ?_⟩
+    · intro hw; simp [hw] at a11; exact a11
+    · intro hw; simp [hw] at a12; exact a12
+    · intro hw
+      simp only [hw, bne_self_eq_false, Bool.false_or, Bool.and_eq_true, decide_eq_true_eq] at a13
+      obtain ⟨⟨⟨b1, b2⟩, b3⟩, b4⟩ := a13
+      refine ⟨b1, b2, by simpa using b3, ?_⟩
+      intro m hm
+      rw [hm] at b4
+      simpa using b4
+    · simpa using a14
+  · simpa using a15
+  · simpa using a16
+  · constructor
+    · intro hn; simp [hn] at a17; exact a17
+    · intro hz; simp [hz] at a18; exact a18
+  · intro ⟨h1, h2⟩; simp [h1, h2] at a19
+  · intro ⟨h1, h2⟩; simp [h1, h2] at a20
+  · constructor
+    · intro h4 hv; simp [h4, hv] at a21; exact a21
+    · intro h6 hv; simp [h6, hv] at a22; exact ⟨a22.1.1.1, a22.1.1.2, a22.1.2, a22.2⟩
+  · constructor
+    · intro he
+      simp only [he, Bool.not_true, Bool.false_or, Bool.and_eq_true] at a23
+      refine ⟨by simpa using a23.1, ?_⟩
+      intro w hw
+      have := a23.2
+      rw [hw] at this
+      simpa using this
+    · intro he w hw
+      simp only [he, Bool.false_or] at a24
+      rw [hw] at a24
+      simpa using a24
+  · intro m hm
+    rw [hm] at a25
+    simp only [Bool.or_eq_true, beq_iff_eq] at a25
+    rcases a25 with h | h
+    · exact Or.inl (by simpa using h)
+    · exact Or.inr h
+  · intro w hw
+    rw [hw] at a26
+    simp only [Bool.or_eq_true, beq_iff_eq] at a26
+    rcases a26 with h | h
+    · exact Or.inl (by simpa using h)
+    · exact Or.inr h
+  · intro hz; simp [hz] at a27; exact a27
+  · intro hz; simp [hz] at a28; exact ⟨a28.1, a28.2⟩
+
+/-- **C05, in the form the driver uses**: whenever the Boolean hypotheses hold for a run's inputs and the drawn values
+    are in range, the theorem applies to that run -/
+theorem imp_exact_of_checks (s : Sig) (b : Base) (hops d : Int) (mtu : Nat) (up : Option Int) (c : Choices)
+    (h1 : admissibleB b = true) (h2 : supportedB s b = true) (h3 : choicesOk s b up c = true)
+    (hh0 : 0 ≤ hops) (hh1 : hops < s.ttl) (hh2 : hops ≤ d) :
+    ∃ o, impTcp s b hops mtu up c = .ok o ∧ tcpMatchPkt s (extractOut o) d = some .exact ∧
+      (s.ttl : Int) - ((extractOut o).ttl : Int) = hops :=
+  imp_exact_partial s b hops d mtu up c (admissibleB_sound b h1) (supportedB_sound s b h2) h3 hh0 hh1 hh2
+
 end P0f
